@@ -108,6 +108,15 @@ func init() {
 			in.allocLimit = in.concInt(a[0].(*Term), "alloc_limit")
 			return nil
 		},
+		"verif_sched_explore": func(in *Interp, fr *frame, a []Value) Value {
+			// lets a harness set a component up deterministically before the explored part begins
+			on := a[0].(*Term)
+			if !on.IsConst() {
+				in.unsupported("verif_sched_explore needs a constant")
+			}
+			in.schedOff = on.k == 0
+			return nil
+		},
 		"verif_havoc": func(in *Interp, fr *frame, a []Value) Value {
 			// every scalar reachable in *p (through structs and arrays) gets an arbitrary value
 			ifc, _ := a[0].(Iface)
